@@ -10,9 +10,9 @@ theorem range_argsCorrect (S : VSchema) (vars opName cur unsel evs) (k : Model.V
     k ∈ ruleArgsCorrect S {} vars opName cur unsel evs → k = .argInvalid := by
   fun_induction ruleArgsCorrect S {} vars opName cur unsel evs <;> grind
 
-theorem range_knownArgs (S : VSchema) (cur evs) (k : Model.Validate.Kind) :
-    k ∈ ruleKnownArgs S cur evs → k = .unknownArgDir ∨ k = .unknownArgField := by
-  fun_induction ruleKnownArgs S cur evs <;> grind
+theorem range_knownArgs (S : VSchema) (D : Defects) (cur evs) (k : Model.Validate.Kind) :
+    k ∈ ruleKnownArgs S D cur evs → k = .unknownArgDir ∨ k = .unknownArgField := by
+  fun_induction ruleKnownArgs S D cur evs <;> grind
 
 theorem range_uniqueArgs (seen evs) (k : Model.Validate.Kind) :
     k ∈ ruleUniqueArgs seen evs → k = .dupArg := by
@@ -55,8 +55,8 @@ theorem foldl_inv {α β} (P : β → Prop) (f : β → α → β) (l : List α)
   | nil => exact hb
   | cons a l ih => exact ih _ (hf _ _ hb)
 
-theorem findConflicts_conflictOnly (d : Doc) (fuel cond sels st) (h : ConflictOnly st) :
-    ConflictOnly (findConflicts d fuel cond sels st) := by
+theorem findConflicts_conflictOnly (d : Doc) (u : Bool) (fuel cond sels st) (h : ConflictOnly st) :
+    ConflictOnly (findConflicts d u fuel cond sels st) := by
   induction fuel generalizing cond sels st with
   | zero => simpa [findConflicts] using h
   | succ n ih =>
@@ -72,12 +72,12 @@ theorem findConflicts_conflictOnly (d : Doc) (fuel cond sels st) (h : ConflictOn
         · exact ih _ _ _ (by simpa [ConflictOnly] using hb)
       · exact hb
 
-theorem range_overlap (d evs) (k : Model.Validate.Kind) :
-    k ∈ ruleOverlap d evs → k = .conflictFields ∨ k = .conflictArgsLen ∨ k = .conflictArgsVal := by
+theorem range_overlap (D : Defects) (d evs) (k : Model.Validate.Kind) :
+    k ∈ ruleOverlap D d evs → k = .conflictFields ∨ k = .conflictArgsLen ∨ k = .conflictArgsVal := by
   simp only [ruleOverlap, List.mem_flatMap]
   rintro ⟨e, _, h⟩
   split at h
-  · exact findConflicts_conflictOnly d _ _ _ _ (by simp [ConflictOnly]) k h
+  · exact findConflicts_conflictOnly d _ _ _ _ _ (by simp [ConflictOnly]) k h
   · simp at h
 
 end AGV.Lemmas.ValidateRanges
